@@ -73,7 +73,7 @@ META = {
                 "USBDevice on a UTMI bus is fed TLC-simulated and random packet sequences (FS / HS patterns, skips, "
                 "wrap-around, single-bit neighbours, every kind of malformed SOF, interleaved tokens / data / handshakes, "
                 "rx_valid gaps) by the UTMI host model and every event is validated by TLC.",
-        "note": "Assumes at most 8 consecutive SOFs with one frame number (microframe_number is 3 bits). Malformed SOFs and "
+        "note": "The microframe number counts modulo 8 (3-bit output); any number of repeats is legal. Malformed SOFs and "
                 "other packets are required to change nothing (reading of `track received SOFs`). Strobe latency free within "
                 "the packet + idle window. Exhaustive only for the bounded model; real-gateware traces are sampled. Trusted "
                 "base: TLC, amaranth.sim, hosts/utmi.py.",
@@ -388,6 +388,54 @@ def _rx_sweep_traces(rng, kind, quick):
     return out
 
 
+def _rx_ignored_head_traces(rng, kind, quick):
+    """Packets that must be ignored as a whole although they *contain* a well-formed data packet: a first byte that
+    is not a valid DATAx PID (every single-bit damage of the four DATA PID bytes, token / handshake / SPLIT / PRE
+    PIDs), 0..2 pad bytes, then PID + payload + CRC16 of a correct data packet -- sent without gaps, paced (a gap
+    before every byte), with a single gap at each position, and (short ones) with every gap pattern."""
+    H = _host()
+    device = kind == "device"
+    mg = RX_MIN_GAP[kind]
+    data_pid_bytes = [H.pid_byte(p) for p in ("DATA0", "DATA1", "DATA2", "MDATA")]
+    heads = [b ^ (1 << k) for b in data_pid_bytes for k in range(8)]
+    heads += [H.pid_byte(p) for p in ("OUT", "IN", "SETUP", "SOF", "PING", "ACK", "NAK", "STALL", "NYET", "SPLIT", "PRE")]
+    out = []
+    st = RxStim(rng, mg + 1, device)
+    for idx, head in enumerate(heads):
+        pads = [idx % 3] if quick else [0, 1, 2]
+        for npad in pads:
+            n = (idx + npad) % 5
+            tail = H.data_bytes(("DATA0", "DATA1", "DATA2", "MDATA")[(idx + npad) % 4], [rng.randrange(256) for _ in range(n)])
+            octets = [head] + [rng.randrange(256) for _ in range(npad)] + tail
+            nb = len(octets)
+            patterns = [[0] * nb, [1] * nb, [0, 1] + [0] * (nb - 2), [0] * (npad + 1) + [rng.randint(1, 3)] + [0] * (nb - npad - 2)]
+            if not quick:
+                patterns += [[0] * k + [1] + [0] * (nb - k - 1) for k in range(2, nb)]
+            else:
+                k = rng.randrange(1, nb)
+                patterns.append([0] * k + [2] + [0] * (nb - k - 1))
+            for gaps in patterns:
+                st.packet(octets, gaps=gaps, tail=(idx + len(gaps)) % 2, info={"what": "ignored-head+data-tail"})
+                st.gap()
+        if len(st.cycles) > 6000:
+            st.idle(30)
+            out.append(st)
+            st = RxStim(rng, mg + 1, device)
+    st.idle(30)
+    out.append(st)
+    # every gap pattern of the shortest ones: head + ZLP data packet (4 bytes), head + pad + ZLP (5 bytes)
+    st = RxStim(rng, mg + 1, device)
+    for head in ([0xD3, 0x78, 0xE1] if quick else [0xD3, 0x78, 0xE1, 0xD2, 0x4A, 0xA5]):
+        for npad in (0, 1):
+            octets = [head] + [0x00] * npad + H.data_bytes("DATA1" if npad else "DATA0", [])
+            for mask in range(1 << len(octets)):
+                st.packet(octets, gaps=[(mask >> k) & 1 for k in range(len(octets))], info={"what": "ignored-head+zlp-gapmask"})
+                st.gap()
+    st.idle(30)
+    out.append(st)
+    return out
+
+
 def _rx_account(rep, kind, st):
     """Coverage accounting (not verdict-bearing): which kinds of packets were exercised."""
     H = _host()
@@ -477,6 +525,8 @@ def check_C02(rep):
             jobs.append((kind, st.cycles, "single-bit-corruptions", st))
         for st in _rx_sweep_traces(rep.rng, kind, quick):
             jobs.append((kind, st.cycles, "alignment-sweeps", st))
+        for st in _rx_ignored_head_traces(rep.rng, kind, quick):
+            jobs.append((kind, st.cycles, "ignored-head-with-data-tail", st))
 
     # 3. run on the real modules
     drivers = {}
@@ -1158,9 +1208,8 @@ class SofBench:
 
 
 def _sof_events(rng, n):
-    """A legal random packet sequence around SOFs; returns (events, tags).  The generator tracks the frame /
-    microframe numbers a correct device would report only to keep the sequence inside the Env assumption
-    (no ninth SOF with the same frame number) and to tag what was exercised; it decides nothing."""
+    """A random packet sequence around SOFs; returns (events, tags).  The generator tracks the frame / microframe
+    numbers a correct device would report only to tag what was exercised; it decides nothing."""
     H = _host()
     events, tags = [], []
     frame, micro = 0, 0
@@ -1168,7 +1217,7 @@ def _sof_events(rng, n):
     left = 0
     for _ in range(n):
         if left == 0:
-            mode = rng.choice(["fs", "hs", "hs", "random", "bitdiff", "wrap"])
+            mode = rng.choice(["fs", "hs", "hs", "random", "bitdiff", "wrap", "longrun"])
             left = rng.randint(3, 20)
             if mode == "wrap":
                 # jump close to the wrap-around (a change like any other)
@@ -1178,25 +1227,22 @@ def _sof_events(rng, n):
         gp = rng.choice([0, 0, 0.3, 0.9])
         if r < 0.62:
             # a well-formed SOF
-            can_repeat = micro < 7
             if mode == "fs":
                 f = (frame + 1) % 2048
             elif mode == "hs":
-                f = frame if (can_repeat and micro < 7 and rng.random() < 0.93) else (frame + 1) % 2048
-                if micro == 7 or not can_repeat:
-                    f = (frame + 1) % 2048
+                f = frame if (micro < 7 and rng.random() < 0.93) else (frame + 1) % 2048
+            elif mode == "longrun":                      # the same number far more than 8 times (counter wraps)
+                f = frame
             elif mode == "random":
                 f = rng.choice([frame, rng.randrange(2048), (frame + rng.randint(2, 9)) % 2048, 0, 0x7FF])
             elif mode == "bitdiff":
                 f = frame ^ (1 << rng.randrange(11)) if rng.random() < 0.7 else frame
             else:
                 f = rng.choice([0x7FE, 0x7FF, 0, 1, frame, (frame + 1) % 2048])
-            if f == frame and not can_repeat:
-                f = (frame + 1) % 2048
             tag = ("sof", "repeat", micro) if f == frame else \
                   ("sof", "new", "wrap" if f < frame else "bit" if bin(f ^ frame).count("1") == 1 else "inc", micro)
             if f == frame:
-                micro += 1
+                micro = (micro + 1) % 8
             else:
                 frame, micro = f, 0
             events.append({"bytes": H.sof_bytes(f), "gap_prob": gp, "idle": rng.choice([4, 6, 6, 8, 20]),
@@ -1264,8 +1310,8 @@ def check_C21(rep):
     quick = rep.tier == "quick"
     rep.rule = ("packets put on the UTMI bus of a real USBDevice, one event per packet, validated against FrameNum.tla; "
                 "distinct by (event kind, transition class, microframe number before)")
-    rep.assume("at most 8 consecutive SOFs carry the same frame number (USB 2.0: 8 microframes per frame; "
-               "microframe_number is 3 bits wide)")
+    rep.assume("microframe_number is the 3-bit output: `incremented` is read modulo 8 (a frame number may repeat any number "
+               "of times; runs of up to %d are driven)" % (12 if quick else 20))
     rep.assume("packets other than well-formed SOFs (bad CRC5, wrong length, wrong PID check, other PIDs) must leave frame / "
                "microframe numbers unchanged and raise no strobe")
     rep.assume("new_frame / sof_detected are counted over the packet and the idle time (>= 4 cycles) after it; "
@@ -1304,6 +1350,14 @@ def check_C21(rep):
     for f in [0x001, 0x000, 0x7FF, 0x000, 0x2AA, 0x555]:
         ev8 += [{"bytes": H.sof_bytes(f), "idle": 6, "gap_prob": 0.3} for _ in range(8)]
     jobs.append((ev8, "eight-microframes", [("sof", "hs8")]))
+    # one frame number repeated far beyond 8 times: the microframe number keeps counting (modulo 8)
+    nrep = 12 if quick else 20
+    evl = []
+    for f in [0x123, 0x000, 0x7FF]:
+        evl += [{"bytes": H.sof_bytes(f), "idle": 5, "gap_prob": 0.2} for _ in range(nrep + 1)]
+        evl.append({"bytes": H.token_bytes("IN", 0, 1), "idle": 5})
+        evl += [{"bytes": H.sof_bytes(f), "idle": 5} for _ in range(3)]
+    jobs.append((evl, "long-runs", [("sof", "longrun", nrep)]))
     evb = []
     for base in ([0x000, 0x7FF, 0x2AA] if quick else [0x000, 0x7FF, 0x2AA, 0x555, 0x400, 0x0FF]):
         for k in range(11):
